@@ -37,7 +37,6 @@ Definition has_asm_opts (loc : string) (tpl opts : list string) : bool :=
           asm_table.
 
 Definition pins_C17 : bool :=
-  asm_no_pure &&
   has_asm "instructions/interrupts.rs::enable" ["sti"] [] &&
   has_asm "instructions/interrupts.rs::disable" ["cli"] [] &&
   (* one block, the two instructions back to back *)
@@ -48,7 +47,6 @@ Definition pins_C17 : bool :=
   has_asm "registers/rflags.rs::read_raw" ["pushfq; pop {}"] ["out(reg) r"].
 
 Definition pins_C18 : bool :=
-  asm_no_pure &&
   has_asm_opts "instructions/port.rs::read_from_port" ["in al, dx"] ["nomem"; "nostack"; "preserves_flags"] &&
   has_asm_opts "instructions/port.rs::read_from_port" ["in ax, dx"] ["nomem"; "nostack"; "preserves_flags"] &&
   has_asm_opts "instructions/port.rs::read_from_port" ["in eax, dx"] ["nomem"; "nostack"; "preserves_flags"] &&
@@ -70,7 +68,6 @@ Definition pins_C18 : bool :=
   has_asm_opt "instructions/port.rs::write_to_port" ["out dx, eax"] "nomem" true.
 
 Definition pins_C11 : bool :=
-  asm_no_pure &&
   has_asm "instructions/tlb.rs::flush" ["invlpg [{}]"] ["in(reg) addr.as_u64()"] &&
   has_asm "instructions/tlb.rs::flush_pcid" ["invpcid {0}, [{1}]"] ["in(reg) kind"; "in(reg) &desc"] &&
   has_asm "instructions/tlb.rs::tlbsync" ["tlbsync"] [] &&
@@ -80,7 +77,6 @@ Definition pins_C11 : bool :=
   has_asm "registers/control.rs::write_raw_impl" ["mov cr3, {}"] ["in(reg) value"].
 
 Definition pins_C16 : bool :=
-  asm_no_pure &&
   has_asm "registers/control.rs::read_raw" ["mov {}, cr0"] ["out(reg) value"] &&
   has_asm "registers/control.rs::write_raw" ["mov cr0, {}"] ["in(reg) value"] &&
   has_asm "registers/control.rs::read_raw" ["mov {}, cr2"] ["out(reg) value"] &&
@@ -137,8 +133,120 @@ Definition pins_C13 : bool :=
      list_eqb t ["push {stack_segment:r}"; "push {new_stack_pointer}"; "push {rflags}";
                  "push {code_segment:r}"; "push {new_instruction_pointer}"; "iretq"] end) asm_table.
 
-Lemma pins_C17_ok : pins_C17 = true. Proof. vm_compute. reflexivity. Qed.
-Lemma pins_C18_ok : pins_C18 = true. Proof. vm_compute. reflexivity. Qed.
-Lemma pins_C11_ok : pins_C11 = true. Proof. vm_compute. reflexivity. Qed.
-Lemma pins_C16_ok : pins_C16 = true. Proof. vm_compute. reflexivity. Qed.
-Lemma pins_C13_ok : pins_C13 = true. Proof. vm_compute. reflexivity. Qed.
+
+(* ---------- exact pins: every asm! block in the domain of a property, with its template,
+   operand bindings AND its complete option list, as vetted when the model was written.  Any
+   edit to one of these blocks (an added `nomem`, `pure`, `nostack`, `readonly`, a changed
+   operand) changes the regenerated table and breaks the theorem of that property. ---------- *)
+Definition entry := (string * list string * list string * list string)%type.
+Definition entry_eqb (a b : entry) : bool :=
+  match a, b with (l1, t1, o1, p1), (l2, t2, o2, p2) =>
+    String.eqb l1 l2 && list_eqb t1 t2 && list_eqb o1 o2 && list_eqb p1 p2 end.
+Fixpoint entries_eqb (a b : list entry) : bool :=
+  match a, b with
+  | [], [] => true
+  | x :: a', y :: b' => entry_eqb x y && entries_eqb a' b'
+  | _, _ => false
+  end.
+Definition in_domain (dom : list entry) (e : entry) : bool :=
+  match e with (l, t, _, _) =>
+    existsb (fun d => match d with (l', t', _, _) => String.eqb l l' && list_eqb t t' end) dom end.
+(* the blocks of the source that belong to the domain (same location and template), in source
+   order, must be exactly the expected entries *)
+Definition exact_pins (expected : list entry) : bool :=
+  entries_eqb (filter (in_domain expected) asm_table) expected.
+(* the rules below, for the whole crate (informational; each property pins them on its own blocks) *)
+(* rules that hold for every block of the crate:
+   no `pure`; a template that pushes or pops may not be `nostack`; a template with a memory
+   operand ("[{") may not be `nomem` *)
+Fixpoint has_sub (sub s : string) : bool :=
+  match s with
+  | EmptyString => String.prefix sub s
+  | String _ rest => String.prefix sub s || has_sub sub rest
+  end.
+Definition tpl_has (sub : string) (tpl : list string) : bool := existsb (has_sub sub) tpl.
+Definition asm_rules (blocks : list entry) : bool :=
+  forallb (fun e : entry => match e with (_, t, _, os) =>
+    negb (has_opt "pure" os) &&
+    (negb (tpl_has "push" t || tpl_has "pop" t) || negb (has_opt "nostack" os)) &&
+    (negb (tpl_has "[{" t) || negb (has_opt "nomem" os)) end) blocks.
+
+Definition expected_C17 : list entry := [
+  ("instructions/interrupts.rs::enable", ["sti"], [], ["nostack"; "preserves_flags"]);
+  ("instructions/interrupts.rs::disable", ["cli"], [], ["nostack"; "preserves_flags"]);
+  ("instructions/interrupts.rs::enable_and_hlt", ["sti; hlt"], [], ["nomem"; "nostack"]);
+  ("registers/rflags.rs::read_raw", ["pushfq; pop {}"], ["out(reg) r"], ["nomem"; "preserves_flags"])
+].
+Definition expected_C18 : list entry := [
+  ("instructions/port.rs::read_from_port", ["in al, dx"], ["out(""al"") value"; "in(""dx"") port"], ["nomem"; "nostack"; "preserves_flags"]);
+  ("instructions/port.rs::read_from_port", ["in ax, dx"], ["out(""ax"") value"; "in(""dx"") port"], ["nomem"; "nostack"; "preserves_flags"]);
+  ("instructions/port.rs::read_from_port", ["in eax, dx"], ["out(""eax"") value"; "in(""dx"") port"], ["nomem"; "nostack"; "preserves_flags"]);
+  ("instructions/port.rs::write_to_port", ["out dx, al"], ["in(""dx"") port"; "in(""al"") value"], ["nomem"; "nostack"; "preserves_flags"]);
+  ("instructions/port.rs::write_to_port", ["out dx, ax"], ["in(""dx"") port"; "in(""ax"") value"], ["nomem"; "nostack"; "preserves_flags"]);
+  ("instructions/port.rs::write_to_port", ["out dx, eax"], ["in(""dx"") port"; "in(""eax"") value"], ["nomem"; "nostack"; "preserves_flags"])
+].
+Definition expected_C11 : list entry := [
+  ("instructions/tlb.rs::flush", ["invlpg [{}]"], ["in(reg) addr.as_u64()"], ["nostack"; "preserves_flags"]);
+  ("instructions/tlb.rs::flush_pcid", ["invpcid {0}, [{1}]"], ["in(reg) kind"; "in(reg) &desc"], ["nostack"; "preserves_flags"]);
+  ("instructions/tlb.rs::tlbsync", ["tlbsync"], [], ["nomem"; "preserves_flags"]);
+  ("instructions/tlb.rs::flush_broadcast", ["invlpgb"], ["in(""rax"") rax"; "in(""ecx"") ecx"; "in(""edx"") edx"], ["nostack"; "preserves_flags"]);
+  ("registers/control.rs::read_raw", ["mov {}, cr3"], ["out(reg) value"], ["nomem"; "nostack"; "preserves_flags"]);
+  ("registers/control.rs::write_raw_impl", ["mov cr3, {}"], ["in(reg) value"], ["nostack"; "preserves_flags"])
+].
+Definition expected_C16 : list entry := [
+  ("instructions/segmentation.rs::set_reg", ["push {sel}"; "lea {tmp}, [55f + rip]"; "push {tmp}"; "retfq"; "55:"], ["sel = in(reg) u64::from(sel.0)"; "tmp = lateout(reg) _"], ["preserves_flags"]);
+  ("instructions/segmentation.rs::swap", ["swapgs"], [], ["nostack"; "preserves_flags"]);
+  ("instructions/segmentation.rs::get_reg[get_reg_impl!(""cs"")]", ["mov {0:x}, cs"], ["out(reg) segment"], ["nomem"; "nostack"; "preserves_flags"]);
+  ("instructions/segmentation.rs::set_reg[segment_impl!(SS, ""ss"")]", ["mov ss, {0:x}"], ["in(reg) sel.0"], ["nostack"; "preserves_flags"]);
+  ("instructions/segmentation.rs::get_reg[segment_impl!(SS, ""ss"")][get_reg_impl!(""ss"")]", ["mov {0:x}, ss"], ["out(reg) segment"], ["nomem"; "nostack"; "preserves_flags"]);
+  ("instructions/segmentation.rs::set_reg[segment_impl!(DS, ""ds"")]", ["mov ds, {0:x}"], ["in(reg) sel.0"], ["nostack"; "preserves_flags"]);
+  ("instructions/segmentation.rs::get_reg[segment_impl!(DS, ""ds"")][get_reg_impl!(""ds"")]", ["mov {0:x}, ds"], ["out(reg) segment"], ["nomem"; "nostack"; "preserves_flags"]);
+  ("instructions/segmentation.rs::set_reg[segment_impl!(ES, ""es"")]", ["mov es, {0:x}"], ["in(reg) sel.0"], ["nostack"; "preserves_flags"]);
+  ("instructions/segmentation.rs::get_reg[segment_impl!(ES, ""es"")][get_reg_impl!(""es"")]", ["mov {0:x}, es"], ["out(reg) segment"], ["nomem"; "nostack"; "preserves_flags"]);
+  ("instructions/segmentation.rs::set_reg[segment_impl!(FS, ""fs"")]", ["mov fs, {0:x}"], ["in(reg) sel.0"], ["nostack"; "preserves_flags"]);
+  ("instructions/segmentation.rs::get_reg[segment_impl!(FS, ""fs"")][get_reg_impl!(""fs"")]", ["mov {0:x}, fs"], ["out(reg) segment"], ["nomem"; "nostack"; "preserves_flags"]);
+  ("instructions/segmentation.rs::set_reg[segment_impl!(GS, ""gs"")]", ["mov gs, {0:x}"], ["in(reg) sel.0"], ["nostack"; "preserves_flags"]);
+  ("instructions/segmentation.rs::get_reg[segment_impl!(GS, ""gs"")][get_reg_impl!(""gs"")]", ["mov {0:x}, gs"], ["out(reg) segment"], ["nomem"; "nostack"; "preserves_flags"]);
+  ("instructions/segmentation.rs::read_base[segment64_impl!(FS, ""fs"", FsBase)]", ["rdfsbase {}"], ["out(reg) val"], ["nomem"; "nostack"; "preserves_flags"]);
+  ("instructions/segmentation.rs::write_base[segment64_impl!(FS, ""fs"", FsBase)]", ["wrfsbase {}"], ["in(reg) base.as_u64()"], ["nostack"; "preserves_flags"]);
+  ("instructions/segmentation.rs::read_base[segment64_impl!(GS, ""gs"", GsBase)]", ["rdgsbase {}"], ["out(reg) val"], ["nomem"; "nostack"; "preserves_flags"]);
+  ("instructions/segmentation.rs::write_base[segment64_impl!(GS, ""gs"", GsBase)]", ["wrgsbase {}"], ["in(reg) base.as_u64()"], ["nostack"; "preserves_flags"]);
+  ("instructions/tables.rs::lgdt", ["lgdt [{}]"], ["in(reg) gdt"], ["nostack"; "preserves_flags"; "readonly"]);
+  ("instructions/tables.rs::lidt", ["lidt [{}]"], ["in(reg) idt"], ["nostack"; "preserves_flags"; "readonly"]);
+  ("instructions/tables.rs::load_tss", ["ltr {0:x}"], ["in(reg) sel.0"], ["nostack"; "preserves_flags"]);
+  ("registers/control.rs::read_raw", ["mov {}, cr0"], ["out(reg) value"], ["nomem"; "nostack"; "preserves_flags"]);
+  ("registers/control.rs::write_raw", ["mov cr0, {}"], ["in(reg) value"], ["nostack"; "preserves_flags"]);
+  ("registers/control.rs::read_raw", ["mov {}, cr2"], ["out(reg) value"], ["nomem"; "nostack"; "preserves_flags"]);
+  ("registers/control.rs::read_raw", ["mov {}, cr3"], ["out(reg) value"], ["nomem"; "nostack"; "preserves_flags"]);
+  ("registers/control.rs::write_raw_impl", ["mov cr3, {}"], ["in(reg) value"], ["nostack"; "preserves_flags"]);
+  ("registers/control.rs::read_raw", ["mov {}, cr4"], ["out(reg) value"], ["nomem"; "nostack"; "preserves_flags"]);
+  ("registers/control.rs::write_raw", ["mov cr4, {}"], ["in(reg) value"], ["nostack"; "preserves_flags"]);
+  ("registers/debug.rs::read_raw", ["mov {}, dr6"], ["out(reg) value"], ["nomem"; "nostack"; "preserves_flags"]);
+  ("registers/debug.rs::read_raw", ["mov {}, dr7"], ["out(reg) value"], ["nomem"; "nostack"; "preserves_flags"]);
+  ("registers/debug.rs::write_raw", ["mov dr7, {}"], ["in(reg) value"], ["nomem"; "nostack"; "preserves_flags"]);
+  ("registers/debug.rs::read[debug_address_register!(Dr0, ""dr0"")]", ["mov {}, dr0"], ["out(reg) addr"], ["nomem"; "nostack"; "preserves_flags"]);
+  ("registers/debug.rs::write[debug_address_register!(Dr0, ""dr0"")]", ["mov dr0, {}"], ["in(reg) addr"], ["nomem"; "nostack"; "preserves_flags"]);
+  ("registers/debug.rs::read[debug_address_register!(Dr1, ""dr1"")]", ["mov {}, dr1"], ["out(reg) addr"], ["nomem"; "nostack"; "preserves_flags"]);
+  ("registers/debug.rs::write[debug_address_register!(Dr1, ""dr1"")]", ["mov dr1, {}"], ["in(reg) addr"], ["nomem"; "nostack"; "preserves_flags"]);
+  ("registers/debug.rs::read[debug_address_register!(Dr2, ""dr2"")]", ["mov {}, dr2"], ["out(reg) addr"], ["nomem"; "nostack"; "preserves_flags"]);
+  ("registers/debug.rs::write[debug_address_register!(Dr2, ""dr2"")]", ["mov dr2, {}"], ["in(reg) addr"], ["nomem"; "nostack"; "preserves_flags"]);
+  ("registers/debug.rs::read[debug_address_register!(Dr3, ""dr3"")]", ["mov {}, dr3"], ["out(reg) addr"], ["nomem"; "nostack"; "preserves_flags"]);
+  ("registers/debug.rs::write[debug_address_register!(Dr3, ""dr3"")]", ["mov dr3, {}"], ["in(reg) addr"], ["nomem"; "nostack"; "preserves_flags"]);
+  ("registers/model_specific.rs::read", ["rdmsr"], ["in(""ecx"") self.0"; "out(""eax"") low"; "out(""edx"") high"], ["nomem"; "nostack"; "preserves_flags"]);
+  ("registers/model_specific.rs::write", ["wrmsr"], ["in(""ecx"") self.0"; "in(""eax"") low"; "in(""edx"") high"], ["nostack"; "preserves_flags"]);
+  ("registers/mxcsr.rs::read", ["stmxcsr [{}]"], ["in(reg) &mut mxcsr"], ["nostack"; "preserves_flags"]);
+  ("registers/mxcsr.rs::write", ["ldmxcsr [{}]"], ["in(reg) &mxcsr"], ["nostack"; "readonly"]);
+  ("registers/rflags.rs::read_raw", ["pushfq; pop {}"], ["out(reg) r"], ["nomem"; "preserves_flags"]);
+  ("registers/rflags.rs::write_raw", ["push {}; popfq"], ["in(reg) val"], ["nomem"; "preserves_flags"]);
+  ("registers/xcontrol.rs::read_raw", ["xgetbv"], ["in(""ecx"") 0"; "out(""rax"") low"; "out(""rdx"") high"], ["nomem"; "nostack"; "preserves_flags"]);
+  ("registers/xcontrol.rs::write_raw", ["xsetbv"], ["in(""ecx"") 0"; "in(""rax"") low"; "in(""rdx"") high"], ["nomem"; "nostack"; "preserves_flags"])
+].
+Definition expected_C13 : list entry := [
+  ("structures/idt.rs::iretq", ["push {stack_segment:r}"; "push {new_stack_pointer}"; "push {rflags}"; "push {code_segment:r}"; "push {new_instruction_pointer}"; "iretq"], ["rflags = in(reg) self.cpu_flags.bits()"; "new_instruction_pointer = in(reg) self.instruction_pointer.as_u64()"; "new_stack_pointer = in(reg) self.stack_pointer.as_u64()"; "code_segment = in(reg) self.code_segment.0"; "stack_segment = in(reg) self.stack_segment.0"], ["noreturn"])
+].
+Definition pins_C17_exact : bool := asm_rules (filter (in_domain expected_C17) asm_table) && asm_rules expected_C17 && exact_pins expected_C17.
+Definition pins_C18_exact : bool := asm_rules (filter (in_domain expected_C18) asm_table) && asm_rules expected_C18 && exact_pins expected_C18.
+Definition pins_C11_exact : bool := asm_rules (filter (in_domain expected_C11) asm_table) && asm_rules expected_C11 && exact_pins expected_C11.
+Definition pins_C16_exact : bool := asm_rules (filter (in_domain expected_C16) asm_table) && asm_rules expected_C16 && exact_pins expected_C16.
+Definition pins_C13_exact : bool := asm_rules (filter (in_domain expected_C13) asm_table) && asm_rules expected_C13 && exact_pins expected_C13.
+
